@@ -78,6 +78,17 @@ class Mesh:
         r = self.xy[self.els[k], 0].mean()
         return 2 * math.pi * r
 
+    def kelvin(self, k):
+        """factor multiplying the material constant of element k: 1, or in the conformally mapped exterior region of an
+        axisymmetric problem (block label flagged external; FEMM manual, appendix on the Kelvin transformation)
+        Ri*Ro / |centroid - (0, Zo)|^2 with the centroid and Zo, Ro, Ri all in the same (length) units"""
+        prob = self.prob
+        if prob.ptype == "planar" or not getattr(prob, "ext", None) or not prob.labels[self.lbl[k]].get("ext"):
+            return 1.0
+        zo, ro, ri = prob.ext
+        r, z = self.xy_units[self.els[k]].mean(axis=0)
+        return ri * ro / (r * r + (z - zo) ** 2)
+
     def depth_edge(self, i, j):
         if self.prob.ptype == "planar":
             return self.prob.depth * self.u
@@ -106,11 +117,11 @@ def electrostatics_system(mesh):
         lab = prob.labels[mesh.lbl[k]]
         mat = prob.blockprops[lab["block"]]
         p, q, a = mesh.grads(k)
-        D = mesh.depth_el(k)
+        D = mesh.depth_el(k) * mesh.kelvin(k)
         Ke = D * EPS0 * (mat.get("ex", 1.0) * np.outer(p, p) + mat.get("ey", 1.0) * np.outer(q, q)) / (4 * a)
         idx = mesh.els[k]
         for i in range(3):
-            f[idx[i]] += D * mat.get("qv", 0.0) * a / 3
+            f[idx[i]] += mesh.depth_el(k) * mat.get("qv", 0.0) * a / 3
             for j in range(3):
                 rows.append(idx[i]); cols.append(idx[j]); vals.append(Ke[i, j])
     mesh.K_stiff = sp.csr_matrix((list(vals), (list(rows), list(cols))), shape=(n, n))
@@ -265,7 +276,7 @@ def heat_system(mesh, T, Tprev=None):
         ky = sum(b for _, b in ks) / 3
         p, q, a = mesh.grads(k)
         D = mesh.depth_el(k)
-        Ke = D * (kx * np.outer(p, p) + ky * np.outer(q, q)) / (4 * a)
+        Ke = D * mesh.kelvin(k) * (kx * np.outer(p, p) + ky * np.outer(q, q)) / (4 * a)
         for i in range(3):
             f[idx[i]] += D * mat.get("qv", 0.0) * a / 3
             for j in range(3):
